@@ -408,7 +408,11 @@ def inline_new_callees(fn, fns, is_new, max_inlines=24):
             if not is_new(callee) or callee not in fns or callee == fn.path or callee in stack_of.get(bi, ()):
                 continue
             g = fns[callee]
-            if g.kind == "closure" or len(t["args"]) != g.mir["argc"]:
+            if g.kind == "closure":
+                # rust-call ABI: (closure, (a, b, ..)) at the call, (closure, a, b, ..) in the body
+                if len(t["args"]) != 2 or op_place(t["args"][1]) is None:
+                    continue
+            elif len(t["args"]) != g.mir["argc"]:
                 continue
             lo, bo = len(mir["locals"]), len(mir["blocks"])
             for l in g.mir["locals"]:
@@ -417,8 +421,14 @@ def inline_new_callees(fn, fns, is_new, max_inlines=24):
                     l2["name"] = l2["name"]
                 mir["locals"].append(l2)
             # bind the arguments (parameter i of g is local i+1)
+            if g.kind == "closure":
+                tp = op_place(t["args"][1])
+                actuals = [t["args"][0]] + [{"copy": {"l": tp["l"], "p": list(tp["p"]) + [{"f": str(i), "of": "(tuple)"}]}}
+                                            for i in range(g.mir["argc"] - 1)]
+            else:
+                actuals = t["args"]
             binds = [{"k": "assign", "place": {"l": lo + i + 1, "p": []}, "rv": {"k": "use", "a": a}, "loc": t.get("loc", "?"),
-                      "inlined": callee} for i, a in enumerate(t["args"])]
+                      "inlined": callee} for i, a in enumerate(actuals)]
             origin = stack_of.get(bi, ()) + (callee,)
             for gi, gb in enumerate(g.mir["blocks"]):
                 nb = {"stmts": [_cp_stmt(st, lo) for st in gb["stmts"]], "cleanup": gb["cleanup"]}
@@ -480,10 +490,25 @@ class Facts:
         with open(bp) as fh:
             base = set(json.load(fh))
 
+        cp = os.path.join(os.path.dirname(os.path.abspath(__file__)), "baseline_closure_calls.json")
+        croots = None
+        if os.path.exists(cp):
+            with open(cp) as fh:
+                croots = set(json.load(fh))
+
         def is_new(path):
-            return "{closure" not in path and path in self.fns and path not in base
-        new = {p for p in self.fns if is_new(p)}
-        if not new:
+            if "{closure" in path:
+                # a local closure called by name in a function that had no such call on the reference tree
+                return croots is not None and path in self.fns and path.split("::{closure")[0] not in croots
+            return path in self.fns and path not in base
+        new = {p for p in self.fns if is_new(p) and "{closure" not in p}
+        called_closures = set()
+        for f in self.fns.values():
+            for c in f.calls():
+                r_ = c.func.get("resolved") or ""
+                if c.path.startswith("core::ops::function::Fn") and "{closure" in r_ and is_new(r_):
+                    called_closures.add(r_)
+        if not new and not called_closures:
             return
         raw = dict(self.fns)
         spliced = set()
